@@ -97,20 +97,11 @@ Proof.
   rewrite (E n) in Hf; [discriminate|]. apply evaluated_spec. auto.
 Qed.
 
-Lemma fold_orb_true l : fold_left orb l true = true.
+Lemma fold_andb_false l : fold_left andb l false = false.
 Proof. induction l; simpl; auto. Qed.
 
-Lemma init_converged_spec flags : init_converged flags = existsb (fun b => b) flags.
+Lemma init_converged_is_all_lemma flags : init_converged flags = forallb (fun b => b) flags.
 Proof.
   unfold init_converged. induction flags as [|b r IH]; simpl; auto.
-  destruct b; simpl; auto. apply fold_orb_true.
-Qed.
-
-Lemma init_or_is_and_lemma flags : flags <> [] -> (forall b, In b flags -> b = true) ->
-  init_converged flags = true /\ init_converged flags = forallb (fun b => b) flags.
-Proof.
-  intros Hne Hall. rewrite init_converged_spec.
-  assert (A : forallb (fun b => b) flags = true) by (apply forallb_forall; auto).
-  rewrite A. destruct flags as [|b r]; [contradiction|]. simpl.
-  rewrite (Hall b) by (now left). auto.
+  destruct b; simpl; auto. apply fold_andb_false.
 Qed.
